@@ -35,6 +35,30 @@ def run(tier, seed, replay):
             run.failure(rec)
     run.traces += s["cases"]
     run.evaluations += s["cases"]
+    # served tiles.json: the real binary, every source x server instance (clauses tilesjson_* of Server.tla)
+    if not replay:
+        vb = C.build_binary()
+        scases = os.path.join(d, "cases_server.ndjson")
+        allc = os.path.join(d, "cases_server_all.ndjson")
+        mcs = C.run_tlc("mc/MC_Server.tla", "mc/MC_C05_quick.cfg", "C17_mc_server", workers=8, replay_out=allc, timeout=1200)
+        C.require_clean(mcs, "MC_Server")
+        seen = set()
+        with open(scases, "w") as f:
+            for c in C.read_ndjson(allc):
+                key = (c["inst"], c["src"]["id"])
+                if key not in seen and c["z"]["txt"] == "0":
+                    seen.add(key)
+                    f.write(json.dumps(c) + "\n")
+        ts = os.path.join(d, "trace_server.ndjson")
+        ss = C.run_harness(hb, ["server", "TILES", vb, scases, ts, C.scratch_dir("C17s")], timeout=3000)
+        vs = C.validate_trace("trace/Trace_Server.tla", "trace/Trace_Server.cfg", "C17_trace_server", ts, timeout=1200)
+        run.add_tlc(vs)
+        for (line, fl) in vs.fails:
+            for cl in fl["clauses"]:
+                if cl.startswith("tilesjson") or cl == "dropped_connection":
+                    run.failure({"clause": cl, "kind": "tilesjson", "fmt": fl["q"]["src"].get("fmt", ""), "case": fl})
+        run.evaluations += len(seen)
+        run.extra_served = len(seen)
     special = {34, 92, 0, 8, 10, 12, 31, 127, 133, 8232, 65535, 128512}
     nt = [c for c in case_list if c["k"] == "tilejson" or (c["value"]["t"] == "s" and special & set(c["value"]["v"])) or c["value"]["t"] in ("a", "o")]
     run.nontrivial = len(nt)
@@ -46,7 +70,7 @@ def run(tier, seed, replay):
                 "documents (string/list/byte values, bounds, center, vector_layers) x coverage classes x {versatiles, pmtiles, tar, directory} "
                 "are written by the real writers and read back. non-trivial = string with a character that needs care, composite value, or "
                 "TileJSON container case")
-    run.extra = {"cases": s["cases"]}
+    run.extra = {"cases": s["cases"], "served_tiles_json_documents": getattr(run, "extra_served", 0)}
     run.assumptions = ["serde_json is the independent standard parser", "numbers are compared as f64 values (canonical {:e} text)",
-                       "the served tiles.json clause is checked with the HTTP server (C05 machinery)"]
+                       "the served tiles.json is fetched from the real binary for every source x server instance (Server.tla TilesJsonFails)"]
     return run.finish()
